@@ -22,7 +22,13 @@ Ctap1Cases ==
     {[op |-> "dispatch", tag |-> "ctap1", proto |-> "ctap1", variant |-> a.variant, wire |-> a.wire, script |-> s, hasLb |-> TRUE] :
         a \in Apdus, s \in Scripts1}
 
-MC_Cases == Ctap2Cases \cup Ctap1Cases
+\* vendor requests built directly from every code of the vendor range (a request value need not
+\* come from the decoder)
+VendorCases ==
+    {[op |-> "dispatch", tag |-> "vendor-constructed", proto |-> "ctap2-vendor", variant |-> "Vendor", wire |-> <<c>>,
+      script |-> s, hasLb |-> TRUE] : c \in 64..127, s \in {[ok |-> TRUE, err |-> 0], [ok |-> FALSE, err |-> 39]}}
+
+MC_Cases == Ctap2Cases \cup Ctap1Cases \cup VendorCases
 
 (***************************************************************************)
 (* C10 on the model                                                        *)
